@@ -530,6 +530,9 @@ def bfs(rep):
     Q = pops[0].func.value.id if pops else None
     pu = [(nm, d_.index) for nm, ds in defs.items() for d_ in ds if pops and d_.value is pops[0] and d_.index is not None]
     MTUP = next((nm for nm, ix in pu if ix == (0,)), None)
+    if MTUP is None and pops:
+        # the queue holds bare markings:  mtuple = q.popleft()
+        MTUP = next((nm for nm, ds in defs.items() for d_ in ds if d_.value is pops[0] and d_.index is None and d_.kind == "assign"), None)
     SEQ = next((nm for nm, ix in pu if ix == (1,)), None)
     for r in succ:
         gs = [(t, s) for t, s in guards_of(pm, r, fi.node)]
@@ -538,7 +541,9 @@ def bfs(rep):
             ok = any(s and (pmatch(f"{NT} == {TG[0]}", t) is not None or pmatch(f"{TG[0]} == {NT}", t) is not None) for t, s in gs)
             rep.ob("O20.4", "DOM", fi, ok, f"return True under {len(gs)} guard(s)", "success is reported only when the reached marking equals the target", node=r)
             src = origin(defs, r.value.elts[1])
-            rep.ob("O20.4", "DOM", fi, SEQ is not None and norm(src).replace(" ", "") == f"{SEQ}+[{TID}]", alpha(src, fi.node), "the certificate is the firing sequence that produced this marking", node=r)
+            # the sequence is not carried with the queued marking (e.g. rebuilt from predecessor links): the rule cannot follow it -> not decided
+            rep.ob("O20.4", "DOM", fi, None if SEQ is None else (norm(src).replace(" ", "") == f"{SEQ}+[{TID}]"), alpha(src, fi.node),
+                   "the certificate is the firing sequence that produced this marking", node=r)
         else:
             ok = any(s and f"{M0[0]}.get(" in norm(t) and f"{MT[0]}.get(" in norm(t) and "==" in norm(t) and norm(t).startswith("all(") for t, s in gs)
             rep.ob("O20.4", "DOM", fi, ok, f"return True under {len(gs)} guard(s)", "the empty sequence is returned only if the start already equals the target", node=r)
@@ -557,15 +562,23 @@ def bfs(rep):
         gs = [t for t, s in guards_of(pm, c, fi.node) if s]
         vm = [pmatch(f"{NT} not in $vis", t) for t in gs]
         vm = [m for m in vm if m]
-        okv = bool(vm) and bool(pfind(f"{vm[0]['vis']}.add({NT})", fi.node))
+        okv = bool(vm) and (bool(pfind(f"{vm[0]['vis']}.add({NT})", fi.node))
+                            or any(norm(t_.value) == vm[0]["vis"] and norm(t_.slice) == NT for t_, v_, st_ in assigned_subscripts(fi.node)))  # visited.add(x) / visited[x] = ..
         rep.ob("O20.4", "DOM", fi, okv, "q.append under `new not in visited`", "a marking is queued once (visited set)", node=c)
         qa = c.args[0]
         okq = SEQ is not None and isinstance(qa, ast.Tuple) and len(qa.elts) == 2 and norm(qa.elts[0]) == NT \
             and norm(origin(defs, qa.elts[1])).replace(" ", "") == f"{SEQ}+[{TID}]"
-        rep.ob("O20.4", "DOM", fi, okq, alpha(c, fi.node), "queued with the sequence that reaches it", node=c)
+        rep.ob("O20.4", "DOM", fi, None if SEQ is None else okq, alpha(c, fi.node), "queued with the sequence that reaches it", node=c)
     rep.ob("O20.4", "DOM", fi, bool(pops) and call_name(pops[0]) == "popleft", "q.popleft()" if pops and call_name(pops[0]) == "popleft" else "q.pop()", "breadth-first order (FIFO)")
     seed = [c for c in walk_local(fi.node) if Q and isinstance(c, ast.Call) and norm(c.func) == f"{Q}.append" and not enclosing_loops(pm, c, fi.node)]
-    rep.ob("O20.4", "DOM", fi, len(seed) == 1 and norm(seed[0].args[0]).replace(" ", "") == f"({ST[0]},[])", alpha(seed[0], fi.node) if seed else "q.append((start, []))", "the search starts from the initial marking with the empty sequence")
+    # the queue may also be created already holding the start:  deque([start]) / deque([(start, [])])
+    qinit = origin(defs, ast.Name(id=Q, ctx=ast.Load())) if Q else None
+    init_txt = norm(qinit.args[0].elts[0]).replace(" ", "") if isinstance(qinit, ast.Call) and call_name(qinit) == "deque" and len(qinit.args) == 1 \
+        and isinstance(qinit.args[0], (ast.List, ast.Tuple)) and len(qinit.args[0].elts) == 1 else None
+    starts = ([norm(seed[0].args[0]).replace(" ", "")] if len(seed) == 1 else []) + ([init_txt] if init_txt else [])
+    ok_start = len(starts) == 1 and starts[0] in ((f"({ST[0]},[])",) if SEQ is not None else (f"({ST[0]},[])", ST[0]))
+    rep.ob("O20.4", "DOM", fi, ok_start, alpha(seed[0], fi.node) if seed else (alpha(qinit, fi.node) if qinit is not None else "q.append((start, []))"),
+           "the search starts from the initial marking with the empty sequence")
     wl = [l for l in walk_local(fi.node) if isinstance(l, ast.While)]
     cuts = [n for n in (walk_local(wl[0]) if wl else []) if isinstance(n, (ast.Break, ast.Continue))]
     okc = True
